@@ -19,7 +19,7 @@ CONSTRAINT Bound
 ACTION_CONSTRAINT Step
 CHECK_DEADLOCK FALSE
 """
-PLANS = {"C19": dict(profile="ready", key="c19", quick=4, thorough=6),
+PLANS = {"C19": dict(profile="ready", key="c19", quick=4, thorough=6, hist=dict(quick=4, thorough=5)),
          "C13": dict(profile="engine", key="c13", quick=4, thorough=6),
          "C12": dict(profile="pure", key="c12", quick=5, thorough=7)}
 
@@ -57,6 +57,12 @@ def _chunk_same_names(chunk):
     return [liferun.replay_transition(t, same_names=True) for t in chunk]
 
 
+def _chunk_recycle(chunk):
+    """histories that replace the destination, replayed with the replacement CREATED after the replaced element died"""
+    import liferun
+    return [liferun.replay_transition(t, recycle=True) if ["add_later", "D1"] in t["h"] else None for t in chunk]
+
+
 def run(pid: str, tier: str) -> dict:
     plan = PLANS[pid]
     trans, info = transitions(plan["profile"], plan[tier])
@@ -64,12 +70,22 @@ def run(pid: str, tier: str) -> dict:
         for k in ("vars", "nxt"):
             if isinstance(t[k], list):
                 t[k] = {}
+    if plan.get("hist"):
+        # every HISTORY (none merged) of a few calls: state hidden in the implementation is not part of the model's state
+        more, minfo = transitions("hist", plan["hist"][tier])
+        for t in more:
+            for k in ("vars", "nxt"):
+                if isinstance(t[k], list):
+                    t[k] = {}
+        trans = trans + more
+        info = dict(info, states=info["states"] + minfo["states"], transitions=info["transitions"] + minfo["transitions"])
     n = min(NCPU, max(1, len(trans) // 50))
     chunks = [c for c in (trans[i::n * 4] for i in range(n * 4)) if c]
     ctx = mp.get_context("spawn")
     with ctx.Pool(n) as pool:
         res = pool.map(_chunk, chunks)
         res2 = pool.map(_chunk_same_names, chunks) if pid == "C19" else []
+        res3 = pool.map(_chunk_recycle, chunks) if pid == "C19" else []
     findings = [None] * len(trans)
     for ci, r in enumerate(res):
         for j, f in enumerate(r):
@@ -80,6 +96,12 @@ def run(pid: str, tier: str) -> dict:
             g = findings[ci + j * len(chunks)]
             g["c19"] += [[x[0] + " (elements of a kind share one name)"] + x[1:] for x in f["c19"]]
             g["crash"] += [[x[0] + " (elements of a kind share one name)"] + x[1:] for x in f["crash"]]
+    for ci, r in enumerate(res3):
+        for j, f in enumerate(r):
+            if f is not None:
+                g = findings[ci + j * len(chunks)]
+                g["c19"] += [[x[0] + " (replacement created after the replaced element died)"] + x[1:] for x in f["c19"]]
+                g["crash"] += [[x[0] + " (replacement created after the replaced element died)"] + x[1:] for x in f["crash"]]
     viol, drift, dyn = [], [], []
     for t, f in zip(trans, findings):
         for item in f[plan["key"]] + f["crash"]:
